@@ -6,6 +6,10 @@ import (
 
 // prepareExec prepares execve parameters
 func prepareExec(Args, Env []string) (*byte, []*byte, []*byte, error) {
+	// execve needs at least argv[0]
+	if len(Args) == 0 {
+		return nil, nil, nil, syscall.EINVAL
+	}
 	// make exec args0
 	argv0, err := syscall.BytePtrFromString(Args[0])
 	if err != nil {
